@@ -452,7 +452,17 @@ type tEdge struct {
 	Mode string   `json:"mode"`          // whole | field | ctrl
 	Src  []string `json:"src,omitempty"` // field path in the predecessor's output (empty: whole output)
 	Dst  []string `json:"dst,omitempty"` // field path in this node's input (empty: whole input)
-	Rel  string   `json:"rel,omitempty"` // exact | upcast | rtcheck | fieldmap | ctrl (what the edge does to the type)
+	Rel  string   `json:"rel,omitempty"` // exact | upcast | rtcheck | rtfail | fieldmap | ctrl (what the edge does to the type)
+	// DataOnly (workflow): the input is declared WithNoDirectDependency; the order comes from elsewhere (a branch)
+	DataOnly bool `json:"data_only,omitempty"`
+}
+
+// tBranch: a branch behind a node (or START). The condition is a constant of the spec.
+type tBranch struct {
+	Targets []string `json:"targets"`
+	Pick    []string `json:"pick"`
+	Multi   bool     `json:"multi,omitempty"`  // declared with NewGraphMultiBranch
+	Stream  bool     `json:"stream,omitempty"` // the condition reads a stream
 }
 
 type tNode struct {
@@ -470,6 +480,7 @@ type tNode struct {
 	Sub        *tGraph `json:"sub,omitempty"`
 	Inputs     []tEdge `json:"inputs"`
 	Lane       int     `json:"lane"`
+	Branch     *tBranch `json:"branch,omitempty"`
 }
 
 // multi: the lambda hands its output over in several chunks.
@@ -495,6 +506,8 @@ type tGraph struct {
 	State bool    `json:"state,omitempty"`
 	Nodes []tNode `json:"nodes"`
 	End   []tEdge `json:"end"`
+	// StartBranch (workflow): a branch behind START
+	StartBranch *tBranch `json:"start_branch,omitempty"`
 }
 
 func (g *tGraph) walk(fn func(g *tGraph)) {
@@ -572,6 +585,8 @@ type tExec struct {
 	In      string
 	Aborted bool // the attempt of a node that asked to be interrupted and re-run
 	Call    int
+	Ctx     string // span workload: what the body found in its context (see spans_test.go)
+	OnStart bool   // span workload: not a body, but the OnStart callback of the node; Ctx is what the handler found
 }
 
 type tMod struct {
@@ -594,6 +609,7 @@ type hist struct {
 	mods         []tMod
 	seen         []tStateSeen
 	call         int
+	spans        bool
 }
 
 type histKey struct{}
@@ -674,7 +690,11 @@ func nodeBody(ctx context.Context, n *tNode, stateful bool, in any) (any, error)
 			return nil, err
 		}
 	}
-	h.log(tExec{Key: n.Key, In: s})
+	e := tExec{Key: n.Key, In: s}
+	if h.spans {
+		e.Ctx = spanOf(ctx)
+	}
+	h.log(e)
 	return mk(n.Out, n.Key+":"+mon.H8(s)), nil
 }
 
@@ -690,6 +710,7 @@ type workflowAPI interface {
 	AddLambdaNode(key string, lambda *compose.Lambda, opts ...compose.GraphAddNodeOpt) *compose.WorkflowNode
 	AddGraphNode(key string, graph compose.AnyGraph, opts ...compose.GraphAddNodeOpt) *compose.WorkflowNode
 	End() *compose.WorkflowNode
+	AddBranch(fromNodeKey string, branch *compose.GraphBranch) *compose.WorkflowBranch
 }
 
 type tRunner interface {
@@ -704,6 +725,7 @@ type tyAPI interface {
 	workflow(out kind, opts ...compose.NewGraphOption) (workflowAPI, compose.AnyGraph, compileFn)
 	pre(n *tNode) compose.GraphAddNodeOpt
 	post(n *tNode) compose.GraphAddNodeOpt
+	branch(b *tBranch) *compose.GraphBranch
 }
 
 type tyOf[T any] struct{}
@@ -821,6 +843,44 @@ func (tyOf[T]) post(n *tNode) compose.GraphAddNodeOpt {
 		st.Log = append(st.Log, "post:"+key)
 		return out, nil
 	})
+}
+
+// branch: a branch whose condition reads a T and answers the constant of the spec.
+func (tyOf[T]) branch(b *tBranch) *compose.GraphBranch {
+	ends := map[string]bool{}
+	for _, t := range b.Targets {
+		ends[t] = true
+	}
+	picked := func() map[string]bool {
+		m := map[string]bool{}
+		for _, t := range b.Pick {
+			m[t] = true
+		}
+		return m
+	}
+	drain := func(sr *schema.StreamReader[T]) error {
+		_, err := readChunks(sr)
+		return err
+	}
+	switch {
+	case b.Multi && b.Stream:
+		return compose.NewStreamGraphMultiBranch(func(ctx context.Context, sr *schema.StreamReader[T]) (map[string]bool, error) {
+			if err := drain(sr); err != nil {
+				return nil, err
+			}
+			return picked(), nil
+		}, ends)
+	case b.Multi:
+		return compose.NewGraphMultiBranch(func(ctx context.Context, in T) (map[string]bool, error) { return picked(), nil }, ends)
+	case b.Stream:
+		return compose.NewStreamGraphBranch(func(ctx context.Context, sr *schema.StreamReader[T]) (string, error) {
+			if err := drain(sr); err != nil {
+				return "", err
+			}
+			return b.Pick[0], nil
+		}, ends)
+	}
+	return compose.NewGraphBranch(func(ctx context.Context, in T) (string, error) { return b.Pick[0], nil }, ends)
 }
 
 func castTo[T any](v any) T {
@@ -974,7 +1034,8 @@ func mkWorkflow[I, O any](opts []compose.NewGraphOption) (workflowAPI, compose.A
 // ---------------------------------------------------------------- builder
 
 type buildEnv struct {
-	plan tPlan // nil: no interrupt points
+	plan  tPlan // nil: no interrupt points
+	names bool  // every node and graph is given a name (what callback handlers are told)
 }
 
 func (e *buildEnv) points(g *tGraph) (before, after []string) {
@@ -994,6 +1055,13 @@ func (e *buildEnv) compileOpts(g *tGraph) []compose.GraphCompileOption {
 	var co []compose.GraphCompileOption
 	if g.Mode == "dag" {
 		co = append(co, compose.WithNodeTriggerMode(compose.AllPredecessor))
+	}
+	if e.names {
+		name := g.Name
+		if name == "" {
+			name = "top"
+		}
+		co = append(co, compose.WithGraphName("G"+name))
 	}
 	b, a := e.points(g)
 	if len(b) > 0 {
@@ -1019,6 +1087,9 @@ func mapping(ed tEdge) *compose.FieldMapping {
 func (e *buildEnv) nodeOpts(g *tGraph, n *tNode) []compose.GraphAddNodeOpt {
 	var opts []compose.GraphAddNodeOpt
 	inK, outK := n.In, n.Out.K
+	if e.names {
+		opts = append(opts, compose.WithNodeName(n.Key))
+	}
 	if n.InputKey != "" {
 		opts = append(opts, compose.WithInputKey(n.InputKey))
 		inK = kMap
@@ -1070,17 +1141,21 @@ func (e *buildEnv) build(g *tGraph) (compose.AnyGraph, compileFn, error) {
 			}
 			for _, from := range order {
 				eds := by[from]
+				var wo []compose.WorkflowAddInputOpt
+				if eds[0].DataOnly {
+					wo = append(wo, compose.WithNoDirectDependency())
+				}
 				switch eds[0].Mode {
 				case "ctrl":
 					wn.AddDependency(from)
 				case "whole":
-					wn.AddInput(from)
+					wn.AddInputWithOptions(from, nil, wo...)
 				default:
 					var ms []*compose.FieldMapping
 					for _, ed := range eds {
 						ms = append(ms, mapping(ed))
 					}
-					wn.AddInput(from, ms...)
+					wn.AddInputWithOptions(from, ms, wo...)
 				}
 			}
 		}
@@ -1100,6 +1175,12 @@ func (e *buildEnv) build(g *tGraph) (compose.AnyGraph, compileFn, error) {
 				return nil, nil, fmt.Errorf("add node %s: %v", n.Key, err)
 			}
 			wire(wn, n.Inputs)
+			if n.Branch != nil {
+				w.AddBranch(n.Key, tys[n.eff().K].branch(n.Branch))
+			}
+		}
+		if g.StartBranch != nil {
+			w.AddBranch(compose.START, tys[g.In.K].branch(g.StartBranch))
 		}
 		wire(w.End(), g.End)
 		return ag, cf, nil
@@ -1129,8 +1210,8 @@ func (e *buildEnv) build(g *tGraph) (compose.AnyGraph, compileFn, error) {
 }
 
 // buildTyped compiles the spec; plan == nil and store == nil give the uninterrupted form.
-func buildTyped(ctx context.Context, g *tGraph, plan tPlan, store compose.CheckPointStore) (r tRunner, err error) {
-	e := &buildEnv{plan: plan}
+func buildTyped(ctx context.Context, g *tGraph, plan tPlan, store compose.CheckPointStore, names bool) (r tRunner, err error) {
+	e := &buildEnv{plan: plan, names: names}
 	p := mon.Safe(func() {
 		var cf compileFn
 		_, cf, err = e.build(g)
@@ -1200,6 +1281,13 @@ func (h *tHistory) render() string {
 			if e.Aborted {
 				ab = "  [asked for interrupt-and-rerun]"
 			}
+			if e.OnStart {
+				fmt.Fprintf(&b, "    OnStart handler of %s: context %s\n", e.Key, e.Ctx)
+				continue
+			}
+			if e.Ctx != "" {
+				ab += "  context " + e.Ctx
+			}
 			fmt.Fprintf(&b, "    %s(%s)%s\n", e.Key, e.In, ab)
 		}
 		for _, m := range c.Mods {
@@ -1254,6 +1342,7 @@ type histOpts struct {
 	InChunks   int
 	IgnoredIn  bool // resumes pass a different input (it must be ignored)
 	NoWatchdog bool
+	Spans      string // "" | graph | graph+node | designated: callback handlers that derive the context (spans_test.go)
 }
 
 // runTyped drives one compiled spec to completion. plan/store nil: a single uninterrupted call.
@@ -1265,12 +1354,12 @@ func runTyped(ctx context.Context, g *tGraph, plan tPlan, o histOpts) *tHistory 
 		store = gspec.NewByteStore()
 		cps = store
 	}
-	r, err := buildTyped(ctx, g, plan, cps)
+	r, err := buildTyped(ctx, g, plan, cps, o.Spans != "")
 	if err != nil {
 		h.BuildErr = err
 		return h
 	}
-	hc := &hist{rerunEnabled: o.Reruns, rerunSeen: map[string]bool{}}
+	hc := &hist{rerunEnabled: o.Reruns, rerunSeen: map[string]bool{}, spans: o.Spans != ""}
 	ctx = withHist(ctx, hc)
 	for i := 0; i < o.MaxCalls; i++ {
 		para := paraOf(o.Paras, i)
@@ -1281,6 +1370,9 @@ func runTyped(ctx context.Context, g *tGraph, plan tPlan, o histOpts) *tHistory 
 		var opts []compose.Option
 		if o.WithID {
 			opts = append(opts, compose.WithCheckPointID("cp"))
+		}
+		if o.Spans != "" {
+			opts = append(opts, spanOptions(g, hc, o.Spans)...)
 		}
 		seed := o.InputSeed
 		if i > 0 {
@@ -1359,7 +1451,7 @@ func runTyped(ctx context.Context, g *tGraph, plan tPlan, o histOpts) *tHistory 
 func execMultiset(es []tExec) []string {
 	var out []string
 	for _, e := range es {
-		if !e.Aborted {
+		if !e.Aborted && !e.OnStart {
 			out = append(out, e.Key+"("+e.In+")")
 		}
 	}
